@@ -516,6 +516,52 @@ static std::string c10_check(int cm, const unsigned char *key, const Bytes &iv, 
   if (memcmp(p, expd.data(), in.size()) != 0) return std::string("decrypt-differs:") + MN[cm] + "|" + MN[cm] + " decryptor differs from SP 800-38A (" + what + ")";
   return "";
 }
+// one AesFactory object driven through ALL operation sequences up to length 4 over {loadiv(A), loadiv(B), create(enc, m1), create(dec, m1),
+// create(enc, m2), create(dec, m2)}: every object must behave like SP 800-38A under the IV that was current when it was created, and
+// objects created earlier must go on undisturbed (runcrypt uses exactly this interface: one factory, loadiv, then T objects)
+static std::string c10_factory(const Case &c) {
+  int m1 = (int)c.num("m1"), m2 = (int)c.num("m2");
+  Bytes key = unhex("2b7e151628aed2a6abf7158809cf4f3c"), ivA = c10_iv(17), ivB = c10_iv(2), blk[3] = {unhex(C10_BLOCKS[0]), unhex(C10_BLOCKS[3]), unhex(C10_BLOCKS[1])};
+  long evals = 0;
+  for (int len = 1; len <= 4; len++) {
+    int total = 1;
+    for (int i = 0; i < len; i++) total *= 6;
+    for (int code = 0; code < total; code++) {
+      AesFactory f(key.data(), ivA.data());
+      const Bytes *cur = &ivA;
+      struct Live { Aesmode *o; ref::Stream *r; int n; std::string what; };
+      std::vector<Live> live;
+      std::string hist, bad;
+      int q = code;
+      for (int i = 0; i < len && bad.empty(); i++, q /= 6) {
+        int op = q % 6;
+        if (op < 2) { cur = op ? &ivB : &ivA; f.loadiv(cur->data()); hist += op ? " loadiv(B)" : " loadiv(A)"; continue; }
+        bool enc = (op % 2) == 0;
+        int cm = op < 4 ? m1 : m2;
+        hist += std::string(enc ? " create(enc," : " create(dec,") + MN[cm] + ")";
+        Aesmode *o = f.createCryMaster(enc, (u8_t)cm);
+        if (!o) { bad = std::string("factory-null:") + MN[cm] + "|no object for mode " + std::to_string(cm); break; }
+        live.push_back({o, new ref::Stream(cm, enc, key.data(), cur->data()), 0, std::string(enc ? "encryptor " : "decryptor ") + MN[cm] + " created under IV " + (cur == &ivA ? "A" : "B")});
+        // every live object takes one more block (the new one three)
+        for (size_t k = 0; k < live.size() && bad.empty(); k++)
+          for (int rep = 0; rep < (k + 1 == live.size() ? 3 : 1); rep++) {
+            Live &L = live[k];
+            alignas(16) unsigned char w[16], e[16];
+            memcpy(w, blk[L.n % 3].data(), 16);
+            memcpy(e, w, 16);
+            L.o->runcry(w);
+            L.r->process(e, 16);
+            L.n++;
+            evals++;
+            if (memcmp(w, e, 16) != 0) { bad = std::string("factory-sequence:") + MN[cm] + "|after the factory operations [" + hist + " ] the " + L.what + " differs from SP 800-38A at its block " + std::to_string(L.n - 1); break; }
+          }
+      }
+      for (auto &L : live) { delete L.o; delete L.r; }
+      if (!bad.empty()) return "#" + std::to_string(evals) + "#" + bad;
+    }
+  }
+  return "#" + std::to_string(evals) + "#";
+}
 static std::string c10_seq(const Case &c) {
   int cm = (int)c.num("cm"), k = (int)c.num("k"), ivk = (int)c.num("iv");
   Bytes iv = c10_iv(ivk);
@@ -799,6 +845,8 @@ static void build(const Args &a, std::vector<Case> &out) {
     for (int cm = 0; cm < 5; cm++)
       for (int iv : {1, 2, 3, 16, 17})
         for (long nb : {300L, 65539L}) { if (!THOROUGH && nb > 300 && iv != 2 && iv != 17) continue; add(Case().set("g", "long").set("cm", cm).set("iv", iv).set("blocks", nb), std::string("long:") + MN[cm] + ":blocks=" + std::to_string(nb)); }
+    for (int m1 = 0; m1 < 5; m1++)
+      for (int m2 = 0; m2 < 5; m2++) add(Case().set("g", "factory").set("m1", m1).set("m2", m2), std::string("factory:") + MN[m1] + "," + MN[m2]);
     if (THOROUGH) // 2^20+3 blocks: the counter / the feedback register after more than a million steps (carry through three bytes for IV kinds 0..2)
       for (int cm = 1; cm < 5; cm++)
         for (int iv : {0, 2, 17}) add(Case().set("g", "long").set("cm", cm).set("iv", iv).set("blocks", 1048579L), std::string("long:") + MN[cm] + ":blocks=2^20+3");
@@ -826,6 +874,7 @@ static std::string run_case(const Case &c) {
   if (g == "rstate") return c09_rstate(c);
   if (g == "seq") return c10_seq(c);
   if (g == "long") return c10_long(c);
+  if (g == "factory") return c10_factory(c);
   if (g == "enc3") return c16_enc3(c);
   if (g == "tails") return c16_tails(c);
   if (g == "dec4") return c16_dec4(c);
